@@ -29,3 +29,8 @@ def check(ctx):
     # a duration ends where the guard is dropped: every guard finishes its span / closes its scope on every path (also while unwinding)
     from .. import scopes
     scopes.rule_scope_pairing(ctx, facts, "R7")
+    # ... and the span bound to a future ends when the future completes, not when the finished adapter is dropped (C13's rule R2)
+    from .. import adapters
+    fnp = ctx.need_fn(facts, "<fastrace::future::InSpan<T> as core::future::future::Future>::poll", "R8")
+    if fnp is not None:
+        ctx.rekeyed(lambda sub: adapters.check_adapter(sub, facts, fnp, "", want_scope=False, want_order=False, kind="span"), {"R2": "R8", "R1": "R8", "R3": "R8"})
